@@ -125,6 +125,11 @@ func (r *rw) premark(f *ast.File) {
 				r.marks[x] = "touch"
 			}
 		case *ast.SelectorExpr:
+			if v, ok := info.Uses[x.Sel].(*types.Var); ok && v.Pkg() != nil && v.Pkg().Path() == "os" && v.Name() == "Stdout" &&
+				!inVenv && !strings.HasPrefix(filepath.Base(r.fset.Position(f.Pos()).Filename), "zz_verif_") && !strings.HasSuffix(r.fset.Position(f.Pos()).Filename, "_test.go") {
+				// the program's standard output as an io.Writer: the virtual environment may make it a slow pipe
+				r.marks[x] = "vstdout"
+			}
 			if tn, ok := info.Uses[x.Sel].(*types.TypeName); ok && tn.Pkg() != nil {
 				switch tn.Pkg().Path() + "." + tn.Name() {
 				case "time.Timer":
@@ -402,6 +407,10 @@ func (r *rw) file(f *ast.File) {
 			if r.marks[x] == "type:Ticker" {
 				r.used = true
 				c.Replace(sel("Ticker"))
+			}
+			if r.marks[x] == "vstdout" {
+				r.usedVenv = true
+				c.Replace(&ast.CallExpr{Fun: &ast.SelectorExpr{X: ast.NewIdent("zzvenv"), Sel: ast.NewIdent("Stdout")}})
 			}
 			if strings.HasPrefix(r.marks[x], "vtype:") {
 				r.usedVenv = true
